@@ -66,6 +66,23 @@ Fixpoint glue_free_from (prev : option str) (l : list atok) : bool :=
   end.
 Definition glue_free (l : list atok) : bool := glue_free_from None l.
 
+(* C02, removers of trailing comments (remove_comments_from_end_of_lines_bounded_by_tokens): a comment such an edit
+   drops must be a trailing one, i.e. something other than whitespace stands before it on its line.  [rp] is the
+   list before the position, nearest object first. *)
+Fixpoint content_before (rp : list atok) : bool :=
+  match rp with
+  | [] => false
+  | t :: r => match a_kind t with RWs => content_before r | RCr | RBlank => false | _ => true end
+  end.
+Fixpoint all_trailing (rp : list atok) (l : list atok) : bool :=
+  match l with
+  | [] => true
+  | t :: r => (if is_verbatim t then content_before rp else true) && all_trailing (t :: rp) r
+  end.
+Definition edit_trailing (l : list atok) (e : edit atok) : bool :=
+  let old := slice l (e_start e) (e_stop e) in
+  c02_edit_ok old (e_new e) || (c02_edit_removes old (e_new e) && all_trailing (rev (firstn (e_start e) l)) old).
+
 Record verdict := mkverdict {
   v_wf : bool;           (* the (normalised) edits are sorted, disjoint, in range *)
   v_after : list atok;   (* Splice.update applied to the current list *)
@@ -76,7 +93,8 @@ Record verdict := mkverdict {
   v_same_count : bool;
   v_cterm : bool; v_wsadj : bool;
   v_kinds_ok : bool;     (* every new token's kind is the RoleTable kind of its role *)
-  v_shape : bool; v_glue : bool   (* the list after the step has the reader shape / no glued code tokens *)
+  v_shape : bool; v_glue : bool;  (* the list after the step has the reader shape / no glued code tokens *)
+  v_c02_trail : bool              (* comments an edit drops are trailing comments *)
 }.
 
 Definition all_edits (l : list atok) (es : list aedit) (ok : list atok -> list atok -> bool) : bool :=
@@ -98,7 +116,8 @@ Definition judge (l : list atok) (es0 : list aedit) : verdict :=
     (changed_lines l after) (same_line_count l after)
     (comment_terminated after) (no_adjacent_ws after)
     (forallb (fun e => kinds_ok (e_new e)) es)
-    (shape_ok after) (glue_free after).
+    (shape_ok after) (glue_free after)
+    (forallb (edit_trailing l) es).
 
 (* the two normalisers of rule_list.fix after phase 1, predicted with the Lines.v model *)
 Definition normalise (l : list atok) : list tok :=
